@@ -25,3 +25,76 @@ fn wf_preserved() {
     let s = rules_succ(v, f_source_square(m.bits), f_target_square(m.bits), f_promotion_piece(m.bits));
     assert!(board_wf(s));
 }
+
+// ---- the real make_move / make / unmake against the rules specification: full symbolic domain, loop-free => complete.
+//      These pair the Verus contracts of units movegen / board_make: same predicate text, independent back end,
+//      robust against restructuring of the function bodies, and a source of concrete counterexamples. ----
+fn to_side(s: Side) -> PlayerState {
+    PlayerState { occupancy: [0, s.pawns, s.knights, s.bishops, s.rooks, s.queens, s.kings], queen_side_castle: s.qs, king_side_castle: s.ks }
+}
+fn to_board(v: Pos) -> Bitboard {
+    Bitboard { white: to_side(v.w), black: to_side(v.b), turn: v.turn, en_passant_square_shift: v.ep, fullmove_clock: v.full, halfmove_clock: v.half }
+}
+fn side_view(p: &PlayerState) -> Side {
+    Side { pawns: p.pawns(), knights: p.knights(), bishops: p.bishops(), rooks: p.rooks(), queens: p.queens(), kings: p.kings(),
+           qs: p.queen_side_castle, ks: p.king_side_castle }
+}
+fn board_view(b: &Bitboard) -> Pos {
+    Pos { w: side_view(&b.white), b: side_view(&b.black), turn: b.turn, ep: b.en_passant_square_shift, full: b.fullmove_clock, half: b.halfmove_clock }
+}
+
+/// make_move encodes a consistent request as a move satisfying move_wf (or drops it in capture/promotion-only mode)
+#[kani::proof]
+fn make_move_emits_wf() {
+    let v = any_pos();
+    kani::assume(board_wf(v));
+    kani::assume(clocks_ok(v));
+    let src: u32 = kani::any();
+    let dst: u32 = kani::any();
+    let piece: u64 = kani::any();
+    let castle: bool = kani::any();
+    let ep: bool = kani::any();
+    let promo: u64 = kani::any();
+    let ep_opp: u32 = kani::any();
+    let nq: bool = kani::any();
+    kani::assume(src < 64 && dst < 64 && piece < 7 && promo < 7 && ep_opp < 64);
+    kani::assume(move_request_ok(v, src, dst, piece, castle, ep, promo, ep_opp));
+    kani::cover!(castle, "a castling request is reachable");
+    kani::cover!(ep, "an en-passant request is reachable");
+    kani::cover!(promo != 0, "a promotion request is reachable");
+    let board = to_board(v);
+    let mut buf: Vec<Move> = Vec::new();
+    board.make_move(&mut buf, nq, src, dst, piece, if castle { CASTLE_MOVE_TRUE_MASK } else { CASTLE_MOVE_FALSE_MASK },
+                    if ep { EN_PASSANT_ATTACK_TRUE_MASK } else { EN_PASSANT_ATTACK_FALSE_MASK }, promo, ep_opp);
+    let me = side(v, v.turn);
+    let op = side(v, 1 - v.turn);
+    let captured = piece_at(op, capture_mask(v, piece_at(me, sqm(src)), src, dst));
+    if nq && captured == 0 && promo == 0 {
+        assert!(buf.is_empty());
+    } else {
+        assert!(buf.len() == 1);
+        let m = buf[0];
+        assert!(move_wf(v, m));
+        assert!(f_source_square(m.bits) == src && f_target_square(m.bits) == dst && f_promotion_piece(m.bits) == promo);
+    }
+}
+
+/// make produces the rules' successor; unmake restores the position
+#[kani::proof]
+fn make_is_rules_succ_and_unmake_restores() {
+    let v = any_pos();
+    kani::assume(board_wf(v));
+    kani::assume(clocks_ok(v));
+    let m = Move { bits: kani::any(), mvvlva: 0 };
+    kani::assume(move_wf(v, m));
+    kani::cover!(f_castle_move(m.bits) != 0, "a castling move is reachable");
+    kani::cover!(f_en_passant_attack(m.bits) != 0, "an en-passant capture is reachable");
+    kani::cover!(f_promotion_piece(m.bits) != 0, "a promotion is reachable");
+    kani::cover!(v.half >= 128, "a half-move clock >= 128 is reachable");
+    let mut board = to_board(v);
+    board.make(m);
+    let s = rules_succ(v, f_source_square(m.bits), f_target_square(m.bits), f_promotion_piece(m.bits));
+    assert!(board_view(&board) == s);
+    board.unmake(m);
+    assert!(board_view(&board) == v);
+}
